@@ -80,7 +80,8 @@ ReadVerdict(ev) ==
     ELSE LET r == ReadBec2(rt.bin, ev.ecckeys, ev.decs, ev.check) IN
          IF ~r.ok THEN (IF ev.kind = "ok" THEN "accepted-malformed:" \o r.err ELSE "ok")
          ELSE IF ev.kind # "ok" THEN "rejected-wellformed"
-         ELSE IF ev.key # r.key THEN "session-key-differs"
+         \* (an EMPTY key - crafted empty payload, unchecked mode - is replaced by a fresh random key by the Bec2File constructor)
+         ELSE IF ev.key # r.key /\ ~(r.key = <<>> /\ Len(ev.key) = 16) THEN "session-key-differs"
          ELSE IF ev.blocks # r.blocks THEN "auth-blocks-differ"
          ELSE IF ev.comps # r.comps THEN "content-differs-from-fields"
          ELSE IF ev.comments # rt.comments THEN "comments-differ"
